@@ -2418,3 +2418,53 @@ func tryLockEdge(p, b *ssa.BasicBlock, o lockState) lockState {
 	}
 	return n
 }
+
+// joinFacts: what can be added to the facts known at b by looking at the joins that dominate it: a
+// join one of whose incoming edges contradicts what is known (`p || q` entered through p, while !p is
+// known here) was entered through another edge; when exactly one edge remains, its facts hold.
+func joinFacts(b *ssa.BasicBlock, known []Fact) []Fact {
+	var out []Fact
+	contradicts := func(fs []Fact) bool {
+		for _, f := range fs {
+			for _, k := range append(known, out...) {
+				if (f.Cond == k.Cond || sameCond(f.Cond, k.Cond)) && f.Pol != k.Pol {
+					return true
+				}
+			}
+		}
+		return false
+	}
+	for d := b; d != nil; d = d.Idom() {
+		if len(d.Preds) < 2 {
+			continue
+		}
+		var feasible [][]Fact
+		pruned := 0
+		for _, p := range d.Preds {
+			if d.Dominates(p) {
+				feasible = append(feasible, nil) // a back edge: not judged
+				continue
+			}
+			pf := baseFacts(p)
+			if len(p.Instrs) > 0 {
+				if iff, ok := p.Instrs[len(p.Instrs)-1].(*ssa.If); ok && len(p.Succs) == 2 && p.Succs[0] != p.Succs[1] {
+					for si, sb := range p.Succs {
+						if sb == d {
+							c, pol := normCond(iff.Cond, si == 0)
+							pf = append(pf, Fact{Cond: c, Pol: pol, If: iff})
+						}
+					}
+				}
+			}
+			if contradicts(pf) {
+				pruned++
+				continue
+			}
+			feasible = append(feasible, pf)
+		}
+		if pruned > 0 && len(feasible) == 1 && feasible[0] != nil {
+			out = append(out, feasible[0]...)
+		}
+	}
+	return out
+}
